@@ -1704,10 +1704,6 @@ func (lf *LenFlow) evalCond(e ast.Expr, s S) []lenSV {
 	if lf.loopCnd[e] {
 		return []lenSV{{s, true}, {s, false}}
 	}
-	if lf.mentionsLen(e, s) {
-		s = s.Set("u", "1")
-		return []lenSV{{s, true}, {s, false}}
-	}
 	if lf.Leaf != nil {
 		if t, f, ok := lf.Leaf(e, s); ok {
 			var out []lenSV
@@ -1719,6 +1715,10 @@ func (lf *LenFlow) evalCond(e ast.Expr, s S) []lenSV {
 			}
 			return out
 		}
+	}
+	if lf.mentionsLen(e, s) {
+		s = s.Set("u", "1")
+		return []lenSV{{s, true}, {s, false}}
 	}
 	return []lenSV{{s, true}, {s, false}}
 }
@@ -1797,7 +1797,11 @@ func (lf *LenFlow) Run() {
 	}
 	init := lf.Init
 	if lf.Def == nil {
-		init = init.Set("L", lenDom{{lf.MinLen, lenInf}}.String())
+		if lf.DefDom != "" {
+			init = init.Set("L", lf.DefDom)
+		} else {
+			init = init.Set("L", lenDom{{lf.MinLen, lenInf}}.String())
+		}
 	}
 	split := func(rs []lenSV) (t, f []S) {
 		for _, r := range rs {
